@@ -6,4 +6,6 @@ export CARGO_NET_OFFLINE=true
 mkdir -p "$VERIF/.cache" "$VERIF/evidence" "$VERIF/replays"
 (cd "$VERIF/sim" && cargo build --release --offline 2>&1 | tail -n 3)
 test -x "$VERIF/.cache/target/release/riti-sim"
+"$VERIF/check_c19.sh" build-only
+test -x "$VERIF/.cache/target-asan/x86_64-unknown-linux-gnu/release/riti-sim"
 echo "setup ok"
